@@ -56,6 +56,9 @@ Print Assumptions load_complete.
 Definition dir_ok : directory := fun p q => Some (mkfile 7 Chebyshev (10 * p + q) ShapeOk).
 Definition dir_missing : directory := fun p q => if (p =? 4) && (q =? 3) then None else dir_ok p q.
 (** a file whose dataset is of lower rank than its metadata announces (numpy would broadcast) *)
+(** a file that exists but is not HDF5 (e.g. a git-lfs pointer) *)
+Definition dir_unreadable : directory :=
+  fun p q => if (p =? 4) && (q =? 4) then Some (mkfile 0 UnknownBasis 0 FileUnreadable) else dir_ok p q.
 Definition dir_malformed : directory :=
   fun p q => if (p =? 3) && (q =? 4) then Some (mkfile 7 Chebyshev 99 ShapeBroadcast) else dir_ok p q.
 Example load_example :
@@ -63,9 +66,10 @@ Example load_example :
    | Ok a => a_blocks a 1 0
    | Err _ => None end) = Some (mkblock 43 5 Cardinal true) /\
   (let '(s, outs) := run the_cfg 5 Cardinal [OpParticles [3; 4]; OpLoad dir_ok; OpLoad dir_missing;
-                                              OpLoad dir_malformed] [] None in
+                                              OpLoad dir_malformed; OpLoad dir_unreadable] [] None in
    (match s with Some a => a_blocks a 0 1 | None => None end, outs)) =
-  (Some (mkblock 34 5 Cardinal true), [Ok tt; Err CollisionLoadError; Err CollisionLoadError]).
+  (Some (mkblock 34 5 Cardinal true),
+   [Ok tt; Err CollisionLoadError; Err CollisionLoadError; Err CollisionLoadError]).
 Proof. vm_compute. split; reflexivity. Qed.
 
 (** * 1b. The two in-package call sites (facts [fd_prog], [manager_handlers],
@@ -88,18 +92,24 @@ Example fd_estimate_runs :
              fd_used s' = [(Cardinal, Cardinal)].
 Proof. eexists. split; vm_compute; reflexivity. Qed.
 
-(** WallGoManager.setupWallSolver with off-equilibrium requested: the complete array is
-    installed, or the load's own error reaches the caller -- never a silent LTE solver; and no
-    other path into the loading / conversion functions exists in the package *)
-Theorem manager_never_silently_lte : forall s load,
+(** The statement below is about ONE call site: the `boltzmannSolver.loadCollisions(...)`
+    statement of WallGoManager.setupWallSolver with the handlers of the try statements around
+    it ([manager_handlers], none in the shipped code): with off-equilibrium requested the
+    complete array is installed or the load's own error leaves setupWallSolver.  That its two
+    callers (solveWall, solveWallDetonation) call it by a bare statement outside any try, that
+    nobody writes bIncludeOffEquilibrium, and that no other use of the loading / conversion
+    entry points (incl. through one level of local aliases, in-place operators, out=) exists in
+    the package is what the extractor's scan counts in [unreviewed_call_paths]; the second
+    theorem is exactly as strong as that scan. *)
+Theorem setupWallSolver_reraises_load_error : forall s load,
   manager_setup manager_handlers true s load =
   match snd load with Ok _ => Ok (fst load, true) | Err k => Err k end.
 Proof. apply CollisionLoad.manager_propagates. facts_good. Qed.
-Print Assumptions manager_never_silently_lte.
+Print Assumptions setupWallSolver_reraises_load_error.
 
-Theorem only_reviewed_call_paths : unreviewed_call_paths = 0.
+Theorem scan_reports_no_unreviewed_use : unreviewed_call_paths = 0.
 Proof. facts_good. Qed.
-Print Assumptions only_reviewed_call_paths.
+Print Assumptions scan_reports_no_unreviewed_use.
 
 (** * 2. Interpolation: index arithmetic of evaluate -> truncate -> moveaxis -> reshape *)
 
